@@ -1,6 +1,7 @@
 (* C05 -- p-value, observed statistic and returned distribution are mutually consistent.
    Statements only; proofs in Proofs/CoreProofs.v. *)
 From PV Require Import Lib.Base Model.Prng Model.Core Model.NoDist Model.NoDistStrat Model.Stratified Proofs.CoreProofs Proofs.NoDistProofs Proofs.NoDistStratProofs.
+From PV Require Lib.LoopShape.
 Open Scope Q_scope.
 
 (* core.py's table pUp + plus1/(reps+plus1) ... is the textbook (H+c)/(reps+c); two-sided doubles and caps *)
@@ -82,3 +83,27 @@ Theorem C05_stratified_less_two_sided_refuted :
   pv_textbook Less 1 0 [0; 0; 0] == 1 /\ pv_textbook TwoSided 1 0 [0; 0; 0] == 1.
 Proof. vm_compute. repeat split; reflexivity. Qed.
 Print Assumptions C05_stratified_less_two_sided_refuted.
+
+(* G9: the repetition loops of the source, read as five-instruction programs (Lib/LoopShape.v).  A loop body accepted by the
+   checker [shape_ok] -- for every number of repetitions, statistic (value d = statistic of the rearrangement after d draws),
+   reference value and starting state -- takes exactly one rearrangement per repetition, stores the statistic of the i-th one
+   at position i and adds to each counter the number of repetitions whose statistic compares as stated with the reference.
+   The generated files Generated/Cxx_G9_loops.v apply it to the loops of the CURRENT source text. *)
+Theorem C05_wellshaped_repetition_loop_stores_and_counts :
+  forall (value : nat -> Q) (ref : Q) (b : list LoopShape.stmt), LoopShape.shape_ok b = true ->
+  forall (n : nat) (s : LoopShape.st), exists s',
+    LoopShape.loop value ref b n s = Some s' /\
+    LoopShape.draws s' = (LoopShape.draws s + n)%nat /\
+    LoopShape.dist s' = LoopShape.dist s ++
+       (if Nat.eqb (LoopShape.stores (LoopShape.rest_of b)) 1 then LoopShape.vals value (LoopShape.draws s) n else []) /\
+    (forall c o, In (c, o) (LoopShape.counts (LoopShape.rest_of b)) ->
+       LoopShape.cnt s' c = (LoopShape.cnt s c + LoopShape.count_cmp ref o (LoopShape.vals value (LoopShape.draws s) n))%nat) /\
+    (forall k, ~ In k (map fst (LoopShape.counts (LoopShape.rest_of b))) -> LoopShape.cnt s' k = LoopShape.cnt s k).
+Proof. exact LoopShape.loop_spec. Qed.
+Print Assumptions C05_wellshaped_repetition_loop_stores_and_counts.
+
+(* the counters of such a loop are the tail counts the models use (count_ge / count_le of the list of simulated values) *)
+Theorem C05_loop_counters_are_the_models_tail_counts : forall tst d,
+  LoopShape.count_cmp tst LoopShape.CGe d = count_ge tst d /\ LoopShape.count_cmp tst LoopShape.CLe d = count_le tst d.
+Proof. intros. split; reflexivity. Qed.
+Print Assumptions C05_loop_counters_are_the_models_tail_counts.
